@@ -27,6 +27,7 @@ Areas available(const CircuitSpec &s, double margin) {
   }
   return a;
 }
+bool step(Circuit &c, const CircuitSpec &s, int mode, Tape &t, Report &R, double &lastMargin, bool first);
 }  // namespace
 
 bool prop(Tape &t, Report &R) {
@@ -41,6 +42,62 @@ bool prop(Tape &t, Report &R) {
   s.labels.insert(mn[mode]);
   for (auto &l : s.labels) R.classify(l);
   Circuit c = s.build();
+  double lastMargin = -1;
+  if (!step(c, s, mode, t, R, lastMargin, true)) return false;
+  // object history (decided last): the same Circuit object is modified through its public
+  // setters (fixed cells moved / turned) and expanded again, often with the same side margin;
+  // every clause is judged again against the new contents
+  int steps = t.weighted({2, 1, 1});
+  for (int st = 0; st < steps; ++st) {
+    std::vector<int> fixedIdx;
+    for (size_t i = 0; i < s.cells.size(); ++i) {
+      s.cells[i].w = c.cellWidth_[i];
+      if (s.cells[i].fixed) fixedIdx.push_back((int)i);
+    }
+    int route = t.choose(0, 2);
+    static const char *rn[] = {"setCellX/Y", "setSolution", "setCellOrientation"};
+    if (!fixedIdx.empty()) {
+      int nmove = t.choose(1, std::min<int>(3, (int)fixedIdx.size()));
+      for (int k = 0; k < nmove; ++k) {
+        CellSpec &cs = s.cells[fixedIdx[t.choose(0, (int)fixedIdx.size() - 1)]];
+        if (route == 2) {
+          cs.orient = t.choose(0, 7);
+        } else {
+          cs.x += (int)t.range(-3 * s.rowHeight, 3 * s.rowHeight);
+          cs.y += (int)t.range(-3, 3) * s.rowHeight;
+          if (route == 1 && t.flip(1, 3)) cs.orient = t.choose(0, 7);
+        }
+      }
+    }
+    std::vector<int> xs, ys;
+    std::vector<CellOrientation> os;
+    PlacementSolution sol;
+    for (auto &cs : s.cells) {
+      xs.push_back(cs.x), ys.push_back(cs.y), os.push_back((CellOrientation)cs.orient);
+      sol.push_back(CellPlacement(cs.x, cs.y, (CellOrientation)cs.orient));
+    }
+    if (route == 0) c.setCellX(xs), c.setCellY(ys);
+    else if (route == 1) c.setSolution(sol);
+    else c.setCellOrientation(os);
+    R.classify(std::string("history:") + rn[route] + (fixedIdx.empty() ? "(no fixed cell)" : ""));
+    int mode2 = t.weighted({3, 3, 2});
+    if (!step(c, s, mode2, t, R, lastMargin, false)) {
+      R.failReason = std::string("after moving fixed cells with ") + rn[route] + " on a circuit that was expanded before: " + R.failReason;
+      return false;
+    }
+  }
+  return true;
+}
+
+namespace {
+bool step(Circuit &c, const CircuitSpec &s, int mode, Tape &t, Report &R, double &lastMargin, bool first) {
+  auto pickMargin = [&]() -> double {
+    double m;
+    if (lastMargin >= 0 && t.flip(2, 3)) m = lastMargin;
+    else m = t.flip() ? 0.0 : t.real(0.0, 2.0);
+    lastMargin = m;
+    return m;
+  };
   Frame before = snap(c);
   int n = c.nbCells();
   std::vector<int> movable;
@@ -56,7 +113,7 @@ bool prop(Tape &t, Report &R) {
       cellArea += (double)c.cellWidth_[i] * c.cellHeight_[i];
     }
   if (movable.empty()) {
-    R.discard("no movable cell");
+    if (first) R.discard("no movable cell");
     return true;
   }
   int maxRowWidth = 0;
@@ -78,7 +135,7 @@ bool prop(Tape &t, Report &R) {
   };
 
   if (mode == 0) {
-    double target = t.real(0.01, 0.99), margin = t.flip() ? 0.0 : t.real(0.0, 2.0), cap = t.flip() ? 1.0 : t.real(0.05, 1.5);
+    double target = t.real(0.01, 0.99), margin = pickMargin(), cap = t.flip() ? 1.0 : t.real(0.05, 1.5);
     Areas av = available(s, margin);
     try {
       c.expandCellsToDensity(target, margin, cap);
@@ -130,7 +187,7 @@ bool prop(Tape &t, Report &R) {
     return true;
   }
   if (mode == 1) {
-    double maxDensity = t.flip() ? 1.0 : t.real(0.05, 1.5), margin = t.flip() ? 0.0 : t.real(0.0, 2.0);
+    double maxDensity = t.flip() ? 1.0 : t.real(0.05, 1.5), margin = pickMargin();
     std::vector<float> f(n);
     for (int i = 0; i < n; ++i) f[i] = t.flip(1, 3) ? 1.0f : (float)t.real(1.0, 4.0);
     Areas av = available(s, margin);
@@ -240,6 +297,7 @@ bool prop(Tape &t, Report &R) {
     });
   return true;
 }
+}  // namespace
 
 bool exhaustive(Report &, int, int, Tape &) { return true; }
 }  // namespace verif
